@@ -151,6 +151,25 @@ func (a *Alerts) Set(alert *types.Alert) error {
 	a.Lock()
 	defer a.Unlock()
 
+	return a.set(alert)
+}
+
+// SetIfNotOlder sets the alert in memory unless the store already holds a
+// version of it with a more recent UpdatedAt. The comparison and the write
+// happen under the store's lock, so concurrent writers of the same alert end
+// up with its most recent version whatever order they run in.
+func (a *Alerts) SetIfNotOlder(alert *types.Alert) error {
+	a.Lock()
+	defer a.Unlock()
+
+	if old, ok := a.alerts[alert.Fingerprint()]; ok && old.UpdatedAt.After(alert.UpdatedAt) {
+		return nil
+	}
+	return a.set(alert)
+}
+
+// set stores the alert. The caller must hold the lock.
+func (a *Alerts) set(alert *types.Alert) error {
 	if a.destroyed {
 		return ErrDestroyed
 	}
